@@ -211,3 +211,50 @@ pub fn run(input: &str, output: &str, opts: Opts) -> std::io::Result<i32> {
     out.flush()?;
     Ok(0)
 }
+
+
+/// C02 "span ids are non-zero and distinct for distinct spans": ids are a per-thread prefix plus a
+/// counter, so only many threads can show a clash.  `threads` short-lived threads each create a
+/// root, a child and a local span and report the ids the library gave them.
+pub fn ids(output: &str, threads: usize) -> std::io::Result<i32> {
+    use fastrace::prelude::*;
+    fastrace::set_reporter(rt::CapturingReporter, fastrace::collector::Config::default());
+    shared().free.store(true, Ordering::SeqCst);
+    let all = Arc::new(std::sync::Mutex::new(Vec::<String>::new()));
+    let mut joins = Vec::new();
+    for t in 0..threads {
+        let all = all.clone();
+        joins.push(std::thread::spawn(move || {
+            let root = Span::root("r", SpanContext::new(fastrace::collector::TraceId(t as u128 + 1), fastrace::collector::SpanId(7)));
+            let child = Span::enter_with_parent("c", &root);
+            let mut mine = Vec::new();
+            for s in [&root, &child] {
+                if let Some(c) = SpanContext::from_span(s) {
+                    mine.push(format!("{:016x}", c.span_id.0));
+                }
+            }
+            let _g = root.set_local_parent();
+            let _l = LocalSpan::enter_with_local_parent("l");
+            if let Some(c) = SpanContext::current_local_parent() {
+                mine.push(format!("{:016x}", c.span_id.0));
+            }
+            all.lock().unwrap().extend(mine);
+        }));
+        if joins.len() >= 64 {
+            for j in joins.drain(..) {
+                let _ = j.join();
+            }
+        }
+    }
+    for j in joins {
+        let _ = j.join();
+    }
+    fastrace::flush();
+    let ids = all.lock().unwrap().clone();
+    let mut out = std::io::BufWriter::new(std::fs::File::create(output)?);
+    writeln!(out, "{}", json!({"ev":"reset","run":0,"cfg":{"cancelable":false,"enabled":true,"ready":true,"queue":10240,"stack":4096,"ring":10240,"foreign":[],"free":true}}))?;
+    writeln!(out, "{}", json!({"ev":"ids","threads":threads,"ids":ids}))?;
+    writeln!(out, "{}", json!({"ev":"end","run":0,"misses":0,"hung":false}))?;
+    out.flush()?;
+    Ok(0)
+}
